@@ -830,6 +830,21 @@ def double_crash_cases(prog, workdir, k1s, k2s, order="fifo", seed=0, horizon_ms
                 s.run_to_end(horizon_ms)
                 hs = dict(s.handlers)
                 crashed1 = s.crashed
+                # cause feature: does the start-up rewind of the process that resumes from here change the layout of the
+                # state (worker slots of running work, queue order)?  Its ticks are then recorded against the rewound layout.
+                reshuffled = False
+                try:
+                    import time as _t
+                    for r_ in en._RUNNERS.values():
+                        before = en.p_state(r_.state)
+                        after = en.p_state(en.CL.rewind_in_progress(r_.state.deepcopy(), _t.time())[0])
+                        for st_ in before["steps"]:
+                            b_, a_ = before["steps"][st_], after["steps"][st_]
+                            if [(x["uid"], x["wid"]) for x in b_["ip"]] != [(x["uid"], x["wid"]) for x in a_["ip"]] or \
+                                    [x["uid"] for x in b_["queue"]] != [x["uid"] for x in a_["queue"]]:
+                                reshuffled = True
+                except Exception:  # noqa: BLE001
+                    reshuffled = False
             finally:
                 s.close()
             if not crashed1:
@@ -877,6 +892,7 @@ def double_crash_cases(prog, workdir, k1s, k2s, order="fifo", seed=0, horizon_ms
             ends = last["k"] in ("cancel", "timeout") or (
                 last["k"] == "result" and any(x["r"] == "ret" and x["ty"] == "Stop" for x in last.get("res", [])))
             cases.append({"e": "case", "k": 1000 * k1 + k2, "ref": ref, "res": res, "reran": bool(reran), "last_tick": last["k"],
+                          "resume_reshuffled": bool(reshuffled),
                           "prefix_ends_run": bool(ends), "pending_retry": bool(pending_retry), "buffered_retry": bool(buffered_retry),
                           "mailbox": int(mailbox),
                           "last_has_output": last["k"] == "result" and any(
